@@ -46,6 +46,8 @@ Step12 == /\ Check(tid, l, "operation-enabled-in-spec:" \o Ev.op, Enabled(Ev))
           /\ Act(Ev)
           /\ (Ev.op \in {"reveal", "cli_reveal"} =>
                  Check(tid, l, "refusal-iff-all-zero-or-nan", Ev.refused = hist'[Len(hist')].refused))
+          \* reveal / mask / unmask return a new screen; the screen they were given is left as it was (both may be held)
+          /\ Check(tid, l, "operation-leaves-the-screen-it-was-given-unchanged:" \o Ev.op, Ev.arg_same)
           /\ Check(tid, l, "train-screen-after-" \o Ev.op, Eq12(Ev.after.train, scr'["train"]))
           /\ Check(tid, l, "test-screen-after-" \o Ev.op, Eq12(Ev.after.test, scr'["test"]))
           /\ \A p \in Paths : Check(tid, l, "file-after-" \o Ev.op, Eq12(Ev.after.files[p], files'[p]))
